@@ -208,7 +208,7 @@ pub struct History<'a> {
 fn collect_msgs<'a>(ops: &'a [Op], out: &mut BTreeMap<u64, &'a Msg>) {
     for o in ops {
         match o {
-            Op::Tell { m, .. } | Op::TellT { m, .. } | Op::Ask { m, .. } | Op::AskT { m, .. } | Op::AskJoin { m, .. } | Op::TellUs { m, .. } | Op::AskUs { m, .. } => {
+            Op::Tell { m, .. } | Op::TellT { m, .. } | Op::Ask { m, .. } | Op::AskT { m, .. } | Op::AskJoin { m, .. } | Op::TellUs { m, .. } | Op::AskUs { m, .. } | Op::TellSelf { m, .. } => {
                 out.insert(m.id, m);
                 collect_msgs(&m.steps, out);
             }
@@ -445,7 +445,7 @@ impl<'a> History<'a> {
                             return Some(x);
                         }
                     }
-                    Op::Tell { m, .. } | Op::TellT { m, .. } | Op::Ask { m, .. } | Op::AskT { m, .. } | Op::AskJoin { m, .. } | Op::TellUs { m, .. } | Op::AskUs { m, .. } => {
+                    Op::Tell { m, .. } | Op::TellT { m, .. } | Op::Ask { m, .. } | Op::AskT { m, .. } | Op::AskJoin { m, .. } | Op::TellUs { m, .. } | Op::AskUs { m, .. } | Op::TellSelf { m, .. } => {
                         if let Some(x) = find_fork(&m.steps, id) {
                             return Some(x);
                         }
